@@ -114,13 +114,13 @@ PROPS = {
     ),
     'C17': dict(
         technique='ASan+UBSan+LeakSanitizer run with an invariant hook on the decoder (pending reassemblies, guarded by ASAM_CMP_VERIF) compared with a reference reassembly model after every decode call',
-        level_text='Exploration with an exhaustive core: after EVERY decode call the hooked list of (device, stream, buffered bytes) must equal the set of endpoints the reference model holds open, with buffered bytes <= received segment bytes; all 59049 words of length 5 over a 9-letter frame alphabet (first/mid/last/unsegmented/invalid/wrong-version/wrong-counter/TECMP/runt) on one endpoint (all words of length 4 over two endpoints in thorough) and seeded random multi-endpoint histories. The invalid-message letter takes four forms (error flag, payload type 0, overrunning length, padding-only frame of 1..56 zero bytes); the TECMP letter includes truncated look-alikes (first byte 0, 8..27 bytes) that name the endpoint itself. Round 7: one history with 70 000 endpoints open at once (pending list walked every 4999th frame and at the turning points). Round 8: frame header values vary (message types 0 and 0xFF, versions 1/2/255, starting counters 0, 1, 2); 150 MB (quick) / 600 MB (thorough) of superseded 60 000-byte reassemblies on one decoder.',
+        level_text='Exploration with an exhaustive core: after EVERY decode call the hooked list of (device, stream, buffered bytes) must equal the set of endpoints the reference model holds open, with buffered bytes <= received segment bytes; all 59049 words of length 5 over a 9-letter frame alphabet (first/mid/last/unsegmented/invalid/wrong-version/wrong-counter/TECMP/runt) on one endpoint (all words of length 4 over two endpoints in thorough) and seeded random multi-endpoint histories. The invalid-message letter takes four forms (error flag, payload type 0, overrunning length, padding-only frame of 1..56 zero bytes); the TECMP letter includes truncated look-alikes (first byte 0, 8..27 bytes) that name the endpoint itself. Round 7: one history with 70 000 endpoints open at once (pending list walked every 4999th frame and at the turning points). Round 8: frame header values vary (message types 0 and 0xFF, versions 1/2/255, starting counters 0, 1, 2); 300 MB (quick) / 1.2 GB (thorough) of superseded 60 000-byte reassemblies on one decoder.',
         level_note='Trusted: ref_decoder.h (validated on > 1 M frames, see DESIGN.md 7), the hook (read-only, inline). Restricted to frame shapes on which the reassembly rules are unambiguous.',
         stages=[dict(driver='drv_decode', flavour='asan'),
                 dict(driver='drv_alloc', flavour='plain0')],
         rule=('cases = frame histories; every decode call is one evaluation (one comparison of the hooked pending list with the model); the second stage (drv_alloc, counting operator new/delete, no hook) adds release-after-destruction histories and long growth runs over ever-new endpoints. distinct_nontrivial = distinct (pending-state signature = sorted (endpoint, segments received) of the open messages, last frame letter) pairs observed.'),
         assumptions=COMMON_ASSUME,
-        floors=dict(quick=dict(megabytes_of_superseded_reassemblies=150, histories_with_70000_open_endpoints=1, distinct_nontrivial=5000, exhaustive_words_len5_one_endpoint=59049, quiescent_points=10000, growth_runs=16, release_histories=2000),
+        floors=dict(quick=dict(megabytes_of_superseded_reassemblies=300, histories_with_70000_open_endpoints=1, distinct_nontrivial=5000, exhaustive_words_len5_one_endpoint=59049, quiescent_points=10000, growth_runs=16, release_histories=2000),
                     thorough=dict(distinct_nontrivial=50000, exhaustive_words_len5_one_endpoint=59049, exhaustive_words_len4_two_endpoints=104976)),
         coverage_static=dict(quick=dict(exhaustive_subspaces=['all 9^5 frame-letter words on one endpoint']),
                              thorough=dict(exhaustive_subspaces=['all 9^5 frame-letter words on one endpoint', 'all 18^4 words over two endpoints'])),
